@@ -11,7 +11,7 @@ import z3
 from pyvc import loader, ops
 from pyvc.contracts import FnContract, LoopSpec, Raises
 from pyvc.state import HeapObj
-from pyvc.values import VTable, NONE, VBool, VBytes, VExt, VInt, VRef, VSeq, VStr, VTuple, VUnk, ext_sort, fresh_name
+from pyvc.values import VTable, NONE, VBool, VBytes, VExt, VFunc, VInt, VRef, VSeq, VStr, VTuple, VUnk, ext_sort, fresh_name
 from pyvc.verify import Maker, p_bv, p_bytes, p_const, p_list_bv
 
 AES = "sharepoint2text/parsing/extractors/pdf/_pypdf_aes_fallback.py"
@@ -278,20 +278,71 @@ def state_fn(f, *extra):
     return final
 
 
+DEFAULT_TABLES = {"_SBOX": ("sbox", None), "_INV_SBOX": ("inv", None), **{f"_MUL{k}": ("mul", k) for k in (2, 3, 9, 11, 13, 14)}}
+_TABLE_ROLES = {}
+
+
+def table_roles(repo=None):
+    """{module-level name: ("sbox" | "inv" | "mul", k)}: which names hold the S-box, its inverse and the GF multiples.
+    The standard names are taken as they are; when some of them are gone (renamed tables), the candidates are found BY VALUE
+    (the module's top level is executed natively, 256-entry int sequences are compared with the specification tables).  This
+    only selects names: each functional description installed for a name is justified by the `module-invariant` obligation of
+    that name in table_checks, which evaluates the real initialiser through the executor."""
+    key = repo or loader.REPO
+    if key in _TABLE_ROLES:
+        return _TABLE_ROLES[key]
+    m = loader.module(AES, repo)
+    roles = {n: r for n, r in DEFAULT_TABLES.items() if n in m.assigns}
+    if len(roles) < len(DEFAULT_TABLES):
+        import signal
+        ns = {"__name__": "c20_table_probe"}
+
+        def _alarm(*_a):
+            raise TimeoutError()
+        old = None
+        try:
+            old = signal.signal(signal.SIGALRM, _alarm)
+            signal.alarm(5)
+            exec(compile(m.source, m.rel, "exec"), ns)
+        except BaseException:  # noqa -- the probe is best effort
+            pass
+        finally:
+            try:
+                signal.alarm(0)
+                if old is not None:
+                    signal.signal(signal.SIGALRM, old)
+            except Exception:  # noqa
+                pass
+        specs = {("sbox", None): SBOX_SPEC, ("inv", None): INV_SBOX_SPEC}
+        specs.update({("mul", k): [_pmul(v, k) for v in range(256)] for k in range(2, 16)})
+        for n in m.assigns:
+            v = ns.get(n)
+            if n in roles or not isinstance(v, (tuple, list, bytes)) or len(v) != 256:
+                continue
+            try:
+                vals = [int(x) for x in v]
+            except Exception:  # noqa
+                continue
+            for r, spec in specs.items():
+                if vals == spec:
+                    roles[n] = r
+    _TABLE_ROLES[key] = roles
+    return roles
+
+
 def install_tables(reg):
     """Module tables as functional tables (each description is an obligation in table_checks)."""
     m = loader.module(AES)
-    def tab(name, fn):
+    for name, (kind, k) in table_roles().items():
+        if kind == "mul":
+            reg.module_consts[(AES, name)] = VTable([VInt(_pmul(v, k)) for v in range(256)], (lambda t, k=k: gmul_const(t, k)), name)
+            continue
+        spec, fn = (SBOX_SPEC, sbox) if kind == "sbox" else (INV_SBOX_SPEC, inv_sbox)
         try:
-            lit = m.literal(name)
-        except Exception:
-            return
-        reg.module_consts[(AES, name)] = VTable([VInt(int(x)) for x in lit], fn, name)
-    tab("_SBOX", sbox)
-    tab("_INV_SBOX", inv_sbox)
-    for k in (2, 3, 9, 11, 13, 14):
-        reg.module_consts[(AES, f"_MUL{k}")] = VTable([VInt(_pmul(v, k)) for v in range(256)],
-                                                       (lambda t, k=k: gmul_const(t, k)), f"_MUL{k}")
+            lit = [int(x) for x in m.literal(name)]
+        except Exception:  # noqa
+            lit = list(spec)       # not a literal: the obligation of this name evaluates the initialiser
+        reg.module_consts[(AES, name)] = VTable([VInt(x) for x in lit], fn, name)
 
 
 def contracts(reg):
@@ -366,8 +417,8 @@ def contracts(reg):
             return z3.And(k.length != 16, k.length != 24, k.length != 32)
         return z3.BoolVal(len(k.items) not in (16, 24, 32))
 
-    out.append(FnContract(
-        target=f"{AES}::_expand_key",
+    out.append(role_contract_for(
+        "_expand_key",
         params=[("key", p_alts(p_bytes(16), p_bytes(24), p_bytes(32),
                                p_sym_bytes(lambda n: z3.And(n != 16, n != 24, n != 32), "bytes of any other length")))],
         returns=ke_returns,
@@ -375,8 +426,19 @@ def contracts(reg):
         raises=[Raises("ValueError", when=bad_key_len)],
         inline=False))
 
+    def block_coerce(v):
+        """a call site may pass a slice of a symbolic buffer (`view[start:stop]`): it is the 16 bytes it selects, provided the
+        call site proves that its length is 16 (call-pre VC); the drivers never hand a shorter block to the block functions"""
+        from contracts import c20_modes as M
+        if isinstance(v, VSeq) and isinstance(v.tag, tuple) and v.tag and v.tag[0] == "arr":
+            n, a = M.arr_of(v)
+            return VBytes([VInt(z3.simplify(z3.Select(a, t))) for t in range(16)]), n == 16
+        return v, None
+
     def blk_params():
-        return [("block", p_alts(p_bytes(16), p_sym_bytes(lambda n: n != 16, "bytes of length != 16"))),
+        mk = p_alts(p_bytes(16), p_sym_bytes(lambda n: n != 16, "bytes of length != 16"))
+        mk.coerce = block_coerce
+        return [("block", mk),
                 ("round_keys", p_alts(p_round_keys(11), p_round_keys(13), p_round_keys(15)))]
 
     def bad_block(c):
@@ -392,21 +454,181 @@ def contracts(reg):
         return r
 
     from contracts import c20_modes as _M
-    out.append(FnContract(
-        target=f"{AES}::_aes_encrypt_block", params=blk_params(),
+    out.append(role_contract_for(
+        "_aes_encrypt_block", params=blk_params(),
         returns=opaque_or(lambda c: VBytes(vb(cipher(terms(c.args["block"].items), rk_terms(c, "round_keys")))), _M.CIPH),
         ensures=[("only-16-byte-blocks", lambda c: z3.Not(bad_block(c)))],
         raises=[Raises("ValueError", when=bad_block)]))
-    out.append(FnContract(
-        target=f"{AES}::_aes_decrypt_block", params=blk_params(),
+    out.append(role_contract_for(
+        "_aes_decrypt_block", params=blk_params(),
         returns=opaque_or(lambda c: VBytes(vb(inv_cipher(terms(c.args["block"].items), rk_terms(c, "round_keys")))), _M.DECIPH),
         ensures=[("only-16-byte-blocks", lambda c: z3.Not(bad_block(c)))],
         raises=[Raises("ValueError", when=bad_block)]))
     out.extend(mode_contracts(reg))
-    return out
+    # private helpers are under contract for modularity only: where a helper was renamed / inlined / deleted, its callers are
+    # verified with whatever they call now (functions without contract are executed in place)
+    have = loader.module(AES).functions
+    out = [c for c in out if not (getattr(c, "role", c.target.split("::")[-1]) in OPTIONAL_HELPERS and c.target.split("::")[-1] not in have)]
+    return [guard_clauses(bind_by_position(c)) for c in out]
+
+
+def guard_clauses(c):
+    """A clause of this pack that trips over a value of a kind it does not know (a Python exception inside pack code on changed
+    input) says nothing about the code: it is `Unsupported` -- the function is undecided and the native replayer decides."""
+    def safe(fn):
+        if fn is None:
+            return None
+
+        def w(*a, **k):
+            try:
+                return fn(*a, **k)
+            except (AttributeError, TypeError, KeyError, IndexError, ValueError) as e:
+                raise ops.Unsupported(f"contract clause not applicable to this shape: {type(e).__name__}: {e}"[:200])
+        return w
+    c.requires, c.hyps, c.returns, c.result_maker, c.decreases = safe(c.requires), safe(c.hyps), safe(c.returns), safe(c.result_maker), safe(c.decreases)
+    c.ensures = [(lb, safe(f)) for lb, f in c.ensures]
+    c.exc_ensures = [(lb, safe(f)) for lb, f in c.exc_ensures]
+    for r in c.raises:
+        r.when = safe(r.when)
+    c.final = {k: safe(f) for k, f in c.final.items()}
+    for sp in c.loops.values():
+        if getattr(sp, "inv", None) is not None:
+            sp.inv = safe(sp.inv)
+        if getattr(sp, "inv_point", None) is not None:
+            sp.inv_point = safe(sp.inv_point)
+    return c
+
+
+OPTIONAL_HELPERS = {"_xtime", "_gf_mul", "_build_mul_table", "_add_round_key", "_sub_bytes", "_inv_sub_bytes", "_shift_rows", "_inv_shift_rows",
+                    "_mix_columns", "_inv_mix_columns", "_build_rcon", "_rcon", "_rot_word", "_sub_word", "_chunks",
+                    "_pkcs7_pad", "_pkcs7_unpad"}     # (the CryptAES.* contracts are stated on the data, with or without these helpers)
+
+
+ROLE_NAMES = ("aes_ecb_encrypt", "aes_ecb_decrypt", "aes_cbc_encrypt", "aes_cbc_decrypt", "_get_round_keys", "_expand_key",
+              "_aes_encrypt_block", "_aes_decrypt_block", "_pkcs7_pad", "_pkcs7_unpad")
+_ROLES = {}
+
+
+def roles_of(repo=None):
+    """{role: (qualname, guessed)} -- which function of the module plays each role of the specification.  A role is named after
+    the function that plays it in the unchanged tree; while a function of that name exists it IS the role (guessed=False).  When
+    the name is gone (renamed function), the role is found by the DATA FLOW of the real code: the drivers are the functions the
+    installation code binds to pypdf's names; the block functions are what the ECB drivers call per block; the round-key
+    provider is the call whose result the drivers hand to the block function; key expansion is the one-argument function the
+    provider calls; pad / unpad are the two-argument helpers the CryptAES methods call.  A role found that way is a guess:
+    a failed VC of its contract is never a violation by itself (post_report: unknown, the native replayer decides)."""
+    import ast
+    key = repo or loader.REPO
+    if key in _ROLES:
+        return _ROLES[key]
+    from contracts import c20_modes as M
+    m = loader.module(AES, repo)
+    F = m.functions
+    res = {r: (r, False) for r in ROLE_NAMES if r in F}
+
+    def calls_in(fn):
+        """[(callee name, call node, inside a loop body / comprehension element)] for calls of module functions"""
+        out = []
+
+        def walk(n, inl):
+            if isinstance(n, (ast.FunctionDef, ast.Lambda)) and n is not fn:
+                return
+            if isinstance(n, ast.Call) and isinstance(n.func, ast.Name) and n.func.id in F:
+                out.append((n.func.id, n, inl))
+            if isinstance(n, (ast.For, ast.While)):
+                walk(n.iter if isinstance(n, ast.For) else n.test, inl)
+                for ch in n.body + n.orelse:
+                    walk(ch, True)
+                return
+            if isinstance(n, (ast.ListComp, ast.GeneratorExp, ast.SetComp)):
+                walk(n.elt, True)
+                for g in n.generators:
+                    walk(g.iter, inl)
+                return
+            for ch in ast.iter_child_nodes(n):
+                walk(ch, inl)
+        walk(fn, False)
+        return out
+
+    try:
+        if any(r not in res for r in ROLE_NAMES):
+            r_ = M.run_install_site(repo)
+            for (st, val) in r_.get("outcomes", []):
+                if isinstance(val, VBool) and z3.is_true(z3.simplify(val.t)):
+                    mods = st.ghost.get("pypdf-modules", {})
+                    for d in ROLE_NAMES[:4]:
+                        got = {M.func_qualname(r_, st.obj(ref).data.get(d)) for ref in mods.values() if d in st.obj(ref).data}
+                        if d not in res and len(got) == 1 and None not in got:
+                            res[d] = (next(iter(got)), True)
+            for drv, role in (("aes_ecb_encrypt", "_aes_encrypt_block"), ("aes_ecb_decrypt", "_aes_decrypt_block")):
+                if drv in res and (role not in res or "_get_round_keys" not in res):
+                    fn = F[res[drv][0]]
+                    per_block = [(n, c) for (n, c, inl) in calls_in(fn) if inl and len(c.args) == 2 and not c.keywords]
+                    if len({n for n, _c in per_block}) == 1:
+                        bname, bcall = per_block[0]
+                        if role not in res:
+                            res[role] = (bname, True)
+                        rk = bcall.args[1]
+                        if "_get_round_keys" not in res and isinstance(rk, ast.Name):
+                            srcs = {a_.value.func.id for a_ in ast.walk(fn) if isinstance(a_, ast.Assign) and len(a_.targets) == 1
+                                    and isinstance(a_.targets[0], ast.Name) and a_.targets[0].id == rk.id and isinstance(a_.value, ast.Call)
+                                    and isinstance(a_.value.func, ast.Name) and a_.value.func.id in F}
+                            if len(srcs) == 1:
+                                res["_get_round_keys"] = (next(iter(srcs)), True)
+            if "_expand_key" not in res and "_get_round_keys" in res:
+                me = res["_get_round_keys"][0]
+                one = {n for (n, c, _i) in calls_in(F[me]) if len(c.args) == 1 and not c.keywords and n != me}
+                if len(one) == 1:
+                    res["_expand_key"] = (next(iter(one)), True)
+            if "_pkcs7_pad" not in res or "_pkcs7_unpad" not in res:
+                meth = M.installed_methods(repo)
+
+                def two(q):
+                    return {n for (n, c, _i) in calls_in(F[q]) if len(c.args) == 2 and not c.keywords
+                            and isinstance(c.args[1], ast.Constant) and c.args[1].value == 16} if q in F else set()
+                e2, d2 = two(meth.get("encrypt", "")), two(meth.get("decrypt", ""))
+                if "_pkcs7_pad" not in res and len(e2) == 1:
+                    res["_pkcs7_pad"] = (next(iter(e2)), True)
+                pad = res.get("_pkcs7_pad", (None,))[0]
+                if "_pkcs7_unpad" not in res and len(d2 - {pad}) == 1:
+                    res["_pkcs7_unpad"] = (next(iter(d2 - {pad})), True)
+    except Exception:  # noqa -- role discovery is best effort; an unresolved role is `contract-target-missing` (undecided)
+        pass
+    for r in ROLE_NAMES:
+        res.setdefault(r, (r, False))
+    _ROLES[key] = res
+    try:        # the native replayer resolves the same roles (it cannot import this pack)
+        import hashlib
+        import json
+        import os
+        out_dir = os.path.join(os.path.dirname(os.path.dirname(os.path.abspath(__file__))), "out")
+        os.makedirs(out_dir, exist_ok=True)
+        path = os.path.join(out_dir, "c20_roles_%s.json" % hashlib.sha1(os.path.realpath(key).encode()).hexdigest()[:12])
+        tmp = f"{path}.{os.getpid()}.tmp"
+        with open(tmp, "w") as fh:
+            json.dump({r: q for r, (q, _g) in res.items()}, fh)
+        os.replace(tmp, path)
+    except Exception:  # noqa
+        pass
+    return res
+
+
+def role_contract_for(role, **kw):
+    """FnContract of the function that plays `role` (obligation ids keep the role name)"""
+    q, guessed = roles_of()[role]
+    c = FnContract(target=f"{AES}::{q}", **kw)
+    c.oid_name = role
+    c.role = role
+    c.role_guessed = guessed
+    return c
+
+
+def rq(role):
+    return roles_of()[role][0]
 
 
 def p_definition_time_default(fnode, expr):
+
     """An optional parameter the property's callers never pass: its value is the DEFAULT, which Python evaluates ONCE, when the
     `def` statement runs -- i.e. before the entry state of every call (PY-DEFAULT).  Whatever the default expression calls
     (e.g. a randomness source) is therefore logged in the ENTRY state's ghost log, not inside the call."""
@@ -437,19 +659,29 @@ def p_unsupported(why):
 
 
 def sig_params(qual, roles):
-    """Contract parameters read from the REAL signature: the parameters the property talks about are bound by name (`roles`),
-    any further parameter must have a default (the property's callers -- pypdf -- never pass it) and is bound to that default."""
+    """Contract parameters read from the REAL signature.  `roles` (ordered) are the parameters the property talks about: each is
+    bound to the real parameter of the same name, or -- when the signature has no such name -- to the real parameter at the same
+    POSITION (a renamed parameter; the clauses keep using the role name, see bind_by_position).  Any further real parameter must
+    have a default (the property's callers -- pypdf -- never pass it) and is bound to that default."""
     fnode = loader.module(AES).functions.get(qual)
     if fnode is None:
         return list(roles.items())
     a = fnode.args
     pos = a.posonlyargs + a.args
+    real = [x.arg for x in pos + a.kwonlyargs]
     dflt = dict(zip([x.arg for x in pos[len(pos) - len(a.defaults):]], a.defaults))
     dflt.update({x.arg: d for x, d in zip(a.kwonlyargs, a.kw_defaults) if d is not None})
+    rnames = list(roles)
+    by_pos = {}                      # real name -> role name, for roles whose name is gone
+    for i, r in enumerate(rnames):
+        if r not in real and i < len(pos) and pos[i].arg not in roles and pos[i].arg not in dflt:
+            by_pos[pos[i].arg] = r
     out = []
     for x in pos + a.kwonlyargs:
         if x.arg in roles:
             out.append((x.arg, roles[x.arg]))
+        elif x.arg in by_pos:
+            out.append((by_pos[x.arg], roles[by_pos[x.arg]]))          # role name; bind_by_position renames it to the real one
         elif x.arg in dflt:
             out.append((x.arg, p_definition_time_default(fnode, dflt[x.arg])))
         else:
@@ -458,6 +690,73 @@ def sig_params(qual, roles):
     for n in missing:
         out.append((n, p_unsupported(f"{qual}: parameter `{n}` no longer exists")))
     return out
+
+
+def bind_by_position(c):
+    """A contract names its parameters by ROLE.  Where the real function calls the parameter at that position differently (a
+    renamed parameter), the contract is bound to the real name (the body is executed with the real names) and every clause
+    still sees the role name: clause contexts get the role names as extra keys of `args`."""
+    import copy
+    qual = c.target.split("::")[-1]
+    fnode = loader.module(AES).functions.get(qual)
+    if fnode is None:
+        return c
+    real = [x.arg for x in fnode.args.posonlyargs + fnode.args.args]
+    names = [n for n, _m in c.params]
+    alias = {}
+    params = []
+    for i, (n, mk) in enumerate(c.params):
+        if n not in real and i < len(real) and real[i] not in names:
+            alias[n] = real[i]
+            params.append((real[i], mk))
+        else:
+            params.append((n, mk))
+    if not alias:
+        return c
+    c.params = params
+    c.aliases = alias
+
+    def ctx_of(cx):
+        c2 = copy.copy(cx)
+        c2.args = dict(cx.args)
+        for role, rn in alias.items():
+            if rn in cx.args:
+                c2.args[role] = cx.args[rn]
+        return c2
+
+    def wrap(fn):
+        if fn is None:
+            return None
+
+        def w(cx):
+            c2 = ctx_of(cx)
+            r = fn(c2)
+            if getattr(c2, "note", None):
+                cx.note = c2.note
+            return r
+        return w
+    c.requires, c.hyps, c.returns = wrap(c.requires), wrap(c.hyps), wrap(c.returns)
+    c.ensures = [(lb, wrap(f)) for lb, f in c.ensures]
+    c.exc_ensures = [(lb, wrap(f)) for lb, f in c.exc_ensures]
+    for r in c.raises:
+        r.when = wrap(r.when)
+    c.final = {alias.get(k, k): wrap(f) for k, f in c.final.items()}
+    c.modifies = tuple(alias.get(k, k) for k in c.modifies)
+    if c.result_maker is not None:
+        rm = c.result_maker
+        c.result_maker = lambda ex, st, cx: rm(ex, st, ctx_of(cx))
+    if c.decreases is not None:
+        c.decreases = wrap(c.decreases)
+    return c
+
+
+def param(lc, role):
+    """entry value of the parameter with this role (loop invariants)"""
+    real = getattr(lc.ex.contract, "aliases", {}).get(role, role)
+    v = lc.entry.lookup(real)
+    if v is None:
+        raise ops.Unsupported(f"parameter `{role}` not found")
+    return v
 
 
 def mode_contracts(reg):
@@ -485,6 +784,12 @@ def mode_contracts(reg):
             hit = VExt("RoundKeys")
         return [(miss, NONE), (st, hit)]
 
+    # loggers (ASSUMED, PY-LOG: logging has no effect on the computation and does not raise)
+    reg.ext_models["logging.getLogger"] = lambda ex, st, args, kwargs, node: [(st, VExt("Logger"))]
+    for meth in ("debug", "info", "warning", "warn", "error", "exception", "critical", "log", "setLevel", "addHandler"):
+        reg.method_models[("Logger", meth)] = lambda ex, st, o, a, k, n: [(st, NONE)]
+    reg.method_models[("Logger", "isEnabledFor")] = lambda ex, st, o, a, k, n: [(st, VBool(z3.Bool(fresh_name("log_enabled"))))]
+    reg.method_models[("Logger", "getChild")] = lambda ex, st, o, a, k, n: [(st, VExt("Logger"))]
     reg.method_models[("RKCache", "get")] = m_cache_get
     reg.method_models[("RKCache", "move_to_end")] = lambda ex, st, o, a, k, n: [(st, NONE)]
     reg.method_models[("RKCache", "popitem")] = lambda ex, st, o, a, k, n: [(st, VUnk("evicted"))]
@@ -493,8 +798,8 @@ def mode_contracts(reg):
         return z3.And(n != 16, n != 24, n != 32)
 
     KEY = M.p_symbytes(desc="key: bytes of any length")
-    out.append(FnContract(
-        target=f"{AES}::_get_round_keys", params=sig_params("_get_round_keys", {"key": KEY}),
+    out.append(role_contract_for(
+        "_get_round_keys", params=sig_params(rq("_get_round_keys"), {"key": KEY}),
         returns=lambda c: VExt("RoundKeys", kexp_of(c.args["key"])),
         ensures=[("only-valid-key-lengths", lambda c: z3.Not(bad_len(c.args["key"].length)))],
         raises=[Raises("ValueError", when=lambda c: bad_len(c.args["key"].length))],
@@ -523,8 +828,8 @@ def mode_contracts(reg):
         return z3.And(rn == n + p, M.seq_eq(n, ra, n, a),                                   # the data, unchanged, ...
                       M.seq_eq(p, M.view(ra, n), p, z3.K(I, z3.Int2BV(p, 8))))              # ... followed by p bytes of value p
 
-    out.append(FnContract(
-        target=f"{AES}::_pkcs7_pad", params=sig_params("_pkcs7_pad", {"data": DATA, "block_size": p_const(16)}),
+    out.append(role_contract_for(
+        "_pkcs7_pad", params=sig_params(rq("_pkcs7_pad"), {"data": DATA, "block_size": p_const(16)}),
         ensures=[("data-followed-by-p-bytes-of-value-p", pad_post)],
         result_maker=fresh_bytes("padded"),
         note="p = 16 - len(data) % 16 in 1..16",
@@ -547,12 +852,14 @@ def mode_contracts(reg):
         stripped = z3.And(valid_padding(c), rn == n - p, M.seq_eq(rn, ra, rn, a))
         return z3.If(n == 0, rn == 0, stripped)
 
-    out.append(FnContract(
-        target=f"{AES}::_pkcs7_unpad", params=sig_params("_pkcs7_unpad", {"data": DATA, "block_size": p_const(16)}),
+    out.append(role_contract_for(
+        "_pkcs7_unpad", params=sig_params(rq("_pkcs7_unpad"), {"data": DATA, "block_size": p_const(16)}),
+        requires=lambda c: c.args["data"].length % 16 == 0,
         ensures=[("removes-exactly-the-padding", unpad_post)],
         result_maker=fresh_bytes("unpadded"),
         raises=[Raises("ValueError", when=lambda c: z3.And(c.args["data"].length > 0, z3.Not(valid_padding(c))))],
-        note="empty input is returned unchanged; invalid padding (p not in 1..16, longer than the data, or bytes != p) is a ValueError",
+        note="domain: block-aligned data (what CryptAES.decrypt hands over: call-pre VC at the call site); empty input is returned unchanged; "
+             "invalid padding (p not in 1..16 or last p bytes != p) is a ValueError",
     ))
     # ---- block functions seen from the drivers: opaque symbols (see module docstring of c20_modes)
     def chunks_returns(c):
@@ -570,34 +877,103 @@ def mode_contracts(reg):
              "in order` (PY-GEN) is assumed; validated natively in replay (chunks_ok)",
     ))
 
-    def offset_name(fname):
-        """the local that advances by one block per iteration of the driver's loop (`offset += 16`), read from the real AST so
-        that renaming it re-verifies"""
+    # ---- what the loop invariants talk about is found by ROLE in the state of the real function, never by name:
+    #   * the output buffer   = the (one) symbolic byte array on the heap that a local refers to,
+    #   * the round keys      = the (one) local of sort RoundKeys,
+    #   * induction variables = locals the loop body advances by a constant (`x += c`, `x = x + c`):  x == x@entry + c * i,
+    #   * the chaining block  = the (one) bytes-like local that is bound at loop entry and re-assigned in the loop body.
+    def loop_node(lc):
         import ast
-        fn = loader.module(AES).functions.get(fname)
-        for loop in [n for n in ast.walk(fn) if isinstance(n, (ast.For, ast.While))] if fn is not None else []:
-            for n in loop.body:
-                if isinstance(n, ast.AugAssign) and isinstance(n.op, ast.Add) and isinstance(n.target, ast.Name) \
-                        and isinstance(n.value, ast.Constant) and n.value.value == 16:
-                    return n.target.id
-        return "offset"
+        fn = lc.ex.cur_fn_stack[-1]
+        loops = [n for n in ast.walk(fn) if isinstance(n, (ast.For, ast.While))]
+        loops.sort(key=lambda n: (n.lineno, n.col_offset))
+        if not loops:
+            raise ops.Unsupported("driver without a loop")
+        return loops[0]
+
+    def out_len_ok(lc, n):
+        """length of the output buffer: the message length for a preallocated buffer, 16 * i for a buffer grown block by block"""
+        on, _oa = out_buffer(lc)
+        saved = lc.st
+        try:
+            lc.st = lc.entry
+            on0, _ = out_buffer(lc)
+        finally:
+            lc.st = saved
+        if z3.is_int_value(z3.simplify(on0)) and z3.simplify(on0).as_long() == 0:
+            if lc.i is None:
+                raise ops.Unsupported("growing buffer in a loop without an iteration index")
+            return on == 16 * lc.i
+        return on == n
+
+    def env_items(st):
+        return list(st.frames[-1].env.items())
+
+    def out_buffer(lc):
+        refs = {v.ref: nme for nme, v in env_items(lc.st) if isinstance(v, VRef) and lc.st.heap.get(v.ref) is not None and lc.st.obj(v.ref).kind == "symarr"}
+        if len(refs) != 1:
+            raise ops.Unsupported(f"output buffer not recognised ({len(refs)} symbolic byte arrays among the locals)")
+        return lc.st.obj(next(iter(refs))).data
+
+    def round_keys_of(lc):
+        rks = [v for _n, v in env_items(lc.st) if isinstance(v, VExt) and v.sort == "RoundKeys"]
+        if len({str(v.t) for v in rks}) != 1:
+            raise ops.Unsupported("round keys local not recognised")
+        return rks[0].t
+
+    def induction(lc):
+        """[(name, step)] of the loop's own counters"""
+        import ast
+        out = []
+        for n in loop_node(lc).body:
+            if isinstance(n, ast.AugAssign) and isinstance(n.op, (ast.Add, ast.Sub)) and isinstance(n.target, ast.Name) \
+                    and isinstance(n.value, ast.Constant) and isinstance(n.value.value, int):
+                out.append((n.target.id, n.value.value if isinstance(n.op, ast.Add) else -n.value.value))
+            elif isinstance(n, ast.Assign) and len(n.targets) == 1 and isinstance(n.targets[0], ast.Name) and isinstance(n.value, ast.BinOp) \
+                    and isinstance(n.value.op, ast.Add):
+                l, r = n.value.left, n.value.right
+                for x, y in ((l, r), (r, l)):
+                    if isinstance(x, ast.Name) and x.id == n.targets[0].id and isinstance(y, ast.Constant) and isinstance(y.value, int):
+                        out.append((x.id, y.value))
+        return out
+
+    def counters_ok(lc):
+        cs = []
+        for (nme, step) in induction(lc):
+            v0 = lc.entry.lookup(nme)
+            if v0 is None or lc.st.lookup(nme) is None:
+                continue
+            if lc.i is None:
+                raise ops.Unsupported("loop without an iteration index (while loop): invariants of this pack are stated per iteration")
+            cs.append(ops.int_term(lc[nme]) == ops.int_term(v0) + step * lc.i)
+        return z3.And(cs) if cs else z3.BoolVal(True)
+
+    def chain_local(lc):
+        """name of the carried chaining block or None"""
+        body = loop_node(lc).body
+        stored = lc.ex.assigned_names(body)
+        cands = []
+        for nme in sorted(stored):
+            v0 = lc.entry.lookup(nme)
+            if v0 is not None and (isinstance(v0, VBytes) or lc.ex._is_symb(v0)):
+                cands.append(nme)
+        if len(cands) > 1:
+            raise ops.Unsupported(f"more than one carried bytes local in the CBC loop: {cands}")
+        return cands[0] if cands else None
 
     def spec_ecb(rk, a, ra, nblocks, fns):
         j = z3.Int("j!ecb")
         return z3.ForAll([j], M.ecb_at(fns, rk, a, ra, nblocks, j))
 
     def ecb_contract(name, fns):
-        OFF = offset_name(name)
-
         def inv(lc):
-            n, a = M.arr_of(lc.entry.lookup("data"))
-            on, oa = lc.st.obj(lc["out"].ref).data
-            return z3.And(ops.int_term(lc[OFF]) == 16 * lc.i, on == n)
+            n, a = M.arr_of(param(lc, "data"))
+            return z3.And(counters_ok(lc), out_len_ok(lc, n))
 
         def inv_point(lc, j):
-            n, a = M.arr_of(lc.entry.lookup("data"))
-            on, oa = lc.st.obj(lc["out"].ref).data
-            return M.ecb_at(fns, lc["round_keys"].t, a, oa, lc.i, j)
+            n, a = M.arr_of(param(lc, "data"))
+            on, oa = out_buffer(lc)
+            return M.ecb_at(fns, round_keys_of(lc), a, oa, lc.i, j)
 
         def post(c):
             n, a = M.arr_of(c.args["data"])
@@ -607,8 +983,8 @@ def mode_contracts(reg):
         def bad(c):
             return z3.Or(c.args["data"].length % 16 != 0, bad_len(c.args["key"].length))
 
-        return FnContract(
-            target=f"{AES}::{name}", params=sig_params(name, {"key": KEY, "data": DATA}),
+        return role_contract_for(
+            name, params=sig_params(rq(name), {"key": KEY, "data": DATA}),
             ensures=[("every-block-is-the-block-cipher-of-the-corresponding-input-block", post), ("lengths-valid", lambda c: z3.Not(bad(c)))],
             raises=[Raises("ValueError", when=bad)],
             loops={0: LoopSpec(inv=inv, inv_point=inv_point, label="blocks")},
@@ -637,23 +1013,27 @@ def mode_contracts(reg):
 
     def cbc_contract(name, enc):
         at = M.cbc_enc_at if enc else M.cbc_dec_at
-        OFF = offset_name(name)
 
         def parts(lc):
-            n, a = M.arr_of(lc.entry.lookup("data"))
-            _ivn, iva = M.arr_of(lc.entry.lookup("iv"))
-            on, oa = lc.st.obj(lc["out"].ref).data
+            n, a = M.arr_of(param(lc, "data"))
+            _ivn, iva = M.arr_of(param(lc, "iv"))
+            on, oa = out_buffer(lc)
             return n, a, iva, on, oa
 
         def inv(lc):
             n, a, iva, on, oa = parts(lc)
             chained = oa if enc else a
-            prev_ok = z3.And([p_ == c_ for p_, c_ in zip(prev_terms(lc["prev"]), M.chain(lc.i, iva, chained))])
-            return z3.And(ops.int_term(lc[OFF]) == 16 * lc.i, on == n, prev_ok)
+            cs = [counters_ok(lc), out_len_ok(lc, n)]
+            ch = chain_local(lc)
+            if ch is not None:
+                v = lc[ch]
+                cs.append((z3.IntVal(len(v.items)) if isinstance(v, VBytes) else v.length) == 16)
+                cs += [p_ == c_ for p_, c_ in zip(prev_terms(v), M.chain(lc.i, iva, chained))]
+            return z3.And(cs)
 
         def inv_point(lc, j):
             n, a, iva, on, oa = parts(lc)
-            return at(lc["round_keys"].t, iva, a, oa, lc.i, j)
+            return at(round_keys_of(lc), iva, a, oa, lc.i, j)
 
         def post(c):
             n, a = M.arr_of(c.args["data"])
@@ -664,11 +1044,11 @@ def mode_contracts(reg):
         def bad(c):
             return z3.Or(c.args["iv"].length != 16, c.args["data"].length % 16 != 0, bad_len(c.args["key"].length))
 
-        return FnContract(
-            target=f"{AES}::{name}", params=sig_params(name, {"key": KEY, "iv": IV, "data": DATA}),
+        return role_contract_for(
+            name, params=sig_params(rq(name), {"key": KEY, "iv": IV, "data": DATA}),
             ensures=[("cbc-chaining-equation-for-every-block", post), ("lengths-valid", lambda c: z3.Not(bad(c)))],
             raises=[Raises("ValueError", when=bad)],
-            loops={0: LoopSpec(inv=inv, inv_point=inv_point, label="blocks", rebind={"prev": fresh_block("prev")})},
+            loops={0: LoopSpec(inv=inv, inv_point=inv_point, label="blocks", rebind="carried-16-byte-blocks")},
             result_maker=fresh_bytes("cbc_enc" if enc else "cbc_dec"),
             note="SP 800-38A CBC for block-aligned messages of any length and every IV",
         )
@@ -692,7 +1072,23 @@ def mode_contracts(reg):
     reg.ext_models["os.urandom"] = m_random_bytes
     from pyvc.verify import p_obj
     SELF = p_obj("CryptAES", {"key": KEY})
-    W = f"{AES}::patch_pypdf_fallback_aes.<locals>."
+    # the functions under the wrapper contracts are the ones the REAL installation code binds to CryptAES.__init__ / .encrypt /
+    # .decrypt (data flow of the executed `patch_pypdf_fallback_aes`, see c20_modes.InstallExecutor) -- wherever they are defined
+    # and whatever they are called; the obligation ids carry the role, not the function name
+    bound = M.installed_methods(loader.REPO)
+    fns_ = loader.module(AES).functions
+
+    def wrapper_target(role, default):
+        q = bound.get(role)
+        if q is None:
+            q = next((c_ for c_ in (f"patch_pypdf_fallback_aes.<locals>.{default}", default) if c_ in fns_), f"patch_pypdf_fallback_aes.<locals>.{default}")
+        return q
+
+    def role_contract(role, default, roles, **kw):
+        q = wrapper_target(role, default)
+        c_ = FnContract(target=f"{AES}::{q}", params=sig_params(q, roles), **kw)
+        c_.oid_name = f"CryptAES.{role}"
+        return c_
 
     def same_bytes(x, y):
         nx, ax = M.arr_of(x)
@@ -706,8 +1102,8 @@ def mode_contracts(reg):
             return z3.BoolVal(False)
         return same_bytes(k, c.args["key"])
 
-    out.append(FnContract(
-        target=W + "_cryptaes_init", params=sig_params("patch_pypdf_fallback_aes.<locals>._cryptaes_init", {"self": p_obj("CryptAES", {}), "key": KEY}),
+    out.append(role_contract(
+        "__init__", "_cryptaes_init", {"self": p_obj("CryptAES", {}), "key": KEY},
         ensures=[("stores-exactly-the-given-key", init_post)], modifies=("self",), raises=[],
         note="CryptAES(key).key == key for every key (what the encrypt / decrypt contracts read as self.key); a bad key length is "
              "rejected by the first encrypt / decrypt call",
@@ -726,17 +1122,19 @@ def mode_contracts(reg):
         return M.seq_eq(nx, ax, ny, ay)
 
     def enc_post(c):
-        pad, enc = the_call(c, "padded"), the_call(c, "cbc_enc")
-        if pad is None or enc is None:
-            raise ops.Unsupported("wrapper does not call _pkcs7_pad and aes_cbc_encrypt exactly once")
+        """stated on the DATA that reaches CBC, not on which helper produced it: padding done by a helper or in place alike"""
+        enc = the_call(c, "cbc_enc")
+        if enc is None:
+            raise ops.Unsupported("wrapper does not call aes_cbc_encrypt exactly once")
         key = c.entry.obj(c.args["self"].ref).data["key"]
+        n, a = M.arr_of(c.args["data"])
         rn, ra = M.arr_of(c.result)
         en, ea = M.arr_of(enc[2])
+        pn, pa = M.arr_of(enc[1]["data"])
         ivn, iva = M.arr_of(enc[1]["iv"])
-        return z3.And(same_bytes(pad[1]["data"], c.args["data"]),          # pads the caller's data ...
-                      same_bytes(enc[1]["data"], pad[2]),                  # ... encrypts exactly the padded data ...
+        return z3.And(M.pad_rel(n, a, pn, pa),                             # CBC gets the caller's data followed by p bytes of value p ...
                       same_bytes(enc[1]["key"], key), ivn == 16,           # ... under self.key and a 16-byte IV ...
-                      rn == 16 + en, M.seq_eq(16, ra, 16, iva),            # ... and returns IV || ciphertext
+                      rn == 16 + en, M.seq_eq(16, ra, 16, iva),            # ... and the result is IV || ciphertext
                       M.seq_eq(en, M.view(ra, 16), en, ea))
 
     def iv_fresh(c):
@@ -754,8 +1152,8 @@ def mode_contracts(reg):
                                   "the IV is a value that existed before the call (same for every call)")
         return z3.Or([z3.BoolVal(False)] + [z3.And(x[1]["n"] == 16, same_bytes(enc[1]["iv"], x[2])) for x in draws])
 
-    out.append(FnContract(
-        target=W + "_cryptaes_encrypt", params=sig_params("patch_pypdf_fallback_aes.<locals>._cryptaes_encrypt", {"self": SELF, "data": DATA}),
+    out.append(role_contract(
+        "encrypt", "_cryptaes_encrypt", {"self": SELF, "data": DATA},
         ensures=[("returns-iv-followed-by-cbc-of-the-padded-data", enc_post),
                  ("iv-is-drawn-from-the-randomness-source-within-this-call", iv_fresh)],
         raises=[Raises("ValueError", when=lambda c: bad_len(c.entry.obj(c.args["self"].ref).data["key"].length))],
@@ -764,24 +1162,27 @@ def mode_contracts(reg):
     ))
 
     def dec_post(c):
+        """stated on the CBC call and on the relation between its plaintext and the result (unpadding by a helper or in place)"""
         n, a = M.arr_of(c.args["data"])
         rn, ra = M.arr_of(c.result)
-        dec, unp = the_call(c, "cbc_dec"), the_call(c, "unpadded")
-        if dec is None or unp is None:
+        dec = the_call(c, "cbc_dec")
+        if dec is None:
+            if [x for x in in_call(c) if x[0] == "cbc_dec"]:
+                raise ops.Unsupported("wrapper calls aes_cbc_decrypt more than once")
             # the early return for an empty payload
             return z3.And(n <= 16, rn == 0)
         key = c.entry.obj(c.args["self"].ref).data["key"]
         pn, pa = M.arr_of(dec[1]["data"])
         ivn, iva = M.arr_of(dec[1]["iv"])
+        dn, da = M.arr_of(dec[2])
         aligned = (n - 16) % 16 == 0
         return z3.And(n > 16, same_bytes(dec[1]["key"], key),
                       ivn == 16, M.seq_eq(16, iva, 16, a),                                   # IV = first 16 bytes
                       z3.Implies(aligned, z3.And(pn == n - 16, M.seq_eq(pn, pa, pn, M.view(a, 16)))),   # payload = the rest
-                      same_bytes(unp[1]["data"], dec[2]),                                     # unpads exactly the CBC plaintext
-                      same_bytes(c.result, unp[2]))
+                      M.unpad_rel(dn, da, rn, ra))                                            # result = CBC plaintext without its padding
 
-    out.append(FnContract(
-        target=W + "_cryptaes_decrypt", params=sig_params("patch_pypdf_fallback_aes.<locals>._cryptaes_decrypt", {"self": SELF, "data": DATA}),
+    out.append(role_contract(
+        "decrypt", "_cryptaes_decrypt", {"self": SELF, "data": DATA},
         ensures=[("returns-unpadded-cbc-plaintext-of-data-after-the-iv", dec_post)],
         raises=[Raises("ValueError", label="bad key length, short IV or invalid padding (raised by the callee contracts)")],
         note="for block-aligned ciphertexts; a ragged payload is padded first (pypdf compatibility) -- not part of the statement",
@@ -850,47 +1251,71 @@ def lemmas():
 
 
 def table_checks(repo, tier):
-    """Ground obligations on the literal tables of the module."""
+    """Ground obligations on the constant tables of the module.  The tables are private names: an obligation exists while the
+    module has a table of that name (ids marked volatile: a renamed table is simply evaluated where it is used); a table that is
+    not a literal is evaluated by the executor; one that cannot be evaluated is `unknown` (the replayer compares the real tables)."""
     from pyvc.flow import ground_obligation
     m = loader.module(AES, repo)
     obls = []
-    G = lambda oid, ok, why="": obls.append(ground_obligation(oid, ok, why, AES, kind="module-invariant", backend="ground"))
-    try:
-        sb, isb = m.literal("_SBOX"), m.literal("_INV_SBOX")
-    except Exception as e:  # noqa
-        return {"obligations": [], "undecided": [{"obligation": "C20/_pypdf_aes_fallback.py::tables", "why": f"tables not literal: {e}"}]}
-    bad = [i for i in range(256) if i >= len(sb) or sb[i] != SBOX_SPEC[i]]
-    G("C20/_pypdf_aes_fallback.py::_SBOX/module-invariant#equals-affine-of-inverse", len(sb) == 256 and not bad, f"first differing indices {bad[:4]}")
-    bad = [i for i in range(256) if i >= len(isb) or isb[i] != INV_SBOX_SPEC[i]]
-    G("C20/_pypdf_aes_fallback.py::_INV_SBOX/module-invariant#inverts-_SBOX", len(isb) == 256 and not bad, f"first differing indices {bad[:4]}")
-    # _MULk = _build_mul_table(k): the module-level initialiser is executed symbolically under the
-    # *verified* contract of _build_mul_table; the resulting table must be gmul(v, k) for every v
+
+    def G(oid, ok, why="", definite=True):
+        o = ground_obligation(oid, ok, "" if ok else why, AES, kind="module-invariant", backend="ground", definite=definite)
+        o["volatile"] = True
+        obls.append(o)
     from pyvc.contracts import Registry
     from pyvc.exctypes import Universe
     from pyvc.symex import Executor
     reg = Registry()
     for c in contracts(reg):
         reg.add(c)
-    for k in (2, 3, 9, 11, 13, 14):
-        reg.module_consts.pop((AES, f"_MUL{k}"), None)
+    roles = table_roles(repo)
+    for name in roles:
+        reg.module_consts.pop((AES, name), None)
     ex = Executor(m, reg, Universe(repo))
     ex.sinks.append([])
-    for k in (2, 3, 9, 11, 13, 14):
-        v = ex.module_const(f"_MUL{k}")
-        items = getattr(v, "items", None)
-        ok = items is not None and len(items) == 256
-        bad = []
-        if ok:
-            for i, it in enumerate(items):
+
+    def values(name):
+        """concrete ints of a module-level table or None"""
+        try:
+            lit = m.literal(name)
+            return [int(x) for x in lit]
+        except Exception:  # noqa
+            pass
+        try:
+            v = ex.module_const(name)
+            items = ex.concrete_items(State(), v) if not hasattr(v, "items") else v.items
+            out = []
+            for it in items:
                 t = z3.simplify(it.t)
-                if not (z3.is_bv_value(t) or z3.is_int_value(t)) or t.as_long() != _pmul(i, k):
-                    bad.append(i)
-        G(f"C20/_pypdf_aes_fallback.py::_MUL{k}/module-invariant#equals-gf-multiples-of-{k}", ok and not bad, f"bad indices {bad[:4]}; kind {type(v).__name__}")
-    v = ex.module_const("_RCON")
-    items = getattr(v, "items", None) or []
+                if not (z3.is_bv_value(t) or z3.is_int_value(t)):
+                    return None
+                out.append(t.as_long())
+            return out
+        except Exception:  # noqa
+            return None
+
+    def table(name, label, spec, exact_len=True):
+        if name not in m.assigns:
+            return
+        vals = values(name)
+        oid = f"C20/_pypdf_aes_fallback.py::{name}/module-invariant#{label}"
+        if vals is None:
+            G(oid, False, "table value not computable by the executor", definite=False)
+            return
+        bad = [i for i in range(len(vals) if not exact_len else len(spec)) if i >= len(vals) or i >= len(spec) or vals[i] != spec[i]]
+        G(oid, (len(vals) == len(spec) if exact_len else len(vals) >= 2) and not bad, f"{len(vals)} entries, first differing indices {bad[:4]}")
+    from pyvc.state import State
+    # (_MULk = _build_mul_table(k): the module-level initialiser is executed symbolically under the *verified* contract of
+    # _build_mul_table -- or in place when that helper was renamed; the resulting table must be gmul(v, k) for every v)
+    for name, (kind, k) in roles.items():
+        if kind == "sbox":
+            table(name, "equals-affine-of-inverse", SBOX_SPEC)
+        elif kind == "inv":
+            table(name, "inverts-_SBOX", INV_SBOX_SPEC)
+        else:
+            table(name, f"equals-gf-multiples-of-{k}", [_pmul(i, k) for i in range(256)])
     # every entry present is the right power of x (how many entries _expand_key needs is decided by its own contract)
-    ok = len(items) >= 2 and all(z3.simplify(it.t).as_long() == (0 if i == 0 else rcon_spec(i)) for i, it in enumerate(items))
-    G("C20/_pypdf_aes_fallback.py::_RCON/module-invariant#equals-powers-of-x", ok, f"kind {type(v).__name__}, {len(items)} entries")
+    table("_RCON", "equals-powers-of-x", [0] + [rcon_spec(i) for i in range(1, 65)], exact_len=False)
     return {"obligations": obls}
 
 
@@ -898,6 +1323,29 @@ def post_report(contract, rep):
     """`iv-is-drawn-...` is a SUFFICIENT condition for freshness (the IV *is* a draw made inside the call); an IV computed
     from such a draw in some other way makes the solver refute the clause without being a counterexample to the property:
     such a model is downgraded to `unknown`, the native replayer (IVs of several calls compared) decides."""
+    for role, real in getattr(contract, "aliases", {}).items():
+        for o in rep.obligations:            # ids name the ROLE of a parameter, not what the code calls it
+            for kind in ("modifies", "final"):
+                if o["id"].endswith(f"/{kind}#{real}"):
+                    o["id"] = o["id"][:-len(real)] + role
+    if getattr(contract, "role", contract.target.split("::")[-1]) in OPTIONAL_HELPERS:
+        for o in rep.obligations:
+            o["volatile"] = True          # exists only while the helper exists (not locked; the callers' obligations are)
+    if getattr(contract, "role_guessed", False):
+        # the function was matched to its role by the call graph, not by its name: a failed VC may mean a wrong match
+        for o in rep.obligations:
+            if o["status"] == "refuted":
+                o["status"] = "unknown"
+                o["reason"] = f"contract of role {contract.role} on a function matched by data flow: " + (o.get("reason") or "")
+    if getattr(contract, "role", "") in DRIVERS:
+        # the drivers' loops are cut by invariants that this pack GUESSES from the roles of the locals (output buffer, counters,
+        # chaining block): a VC that fails may only mean that the guessed invariant does not fit a restructured loop.  Such a
+        # model is no counterexample to the property: `unknown`, and the native replayer (differential runs of all four
+        # drivers over short and long messages, wrong lengths) decides.
+        for o in rep.obligations:
+            if o["status"] == "refuted":
+                o["status"] = "unknown"
+                o["reason"] = "fails under the inferred loop invariant (not a definite counterexample): " + (o.get("reason") or "")
     for o in rep.obligations:
         if o["id"].endswith("#iv-is-drawn-from-the-randomness-source-within-this-call") and o["status"] == "refuted":
             o["status"] = "unknown"
@@ -905,100 +1353,78 @@ def post_report(contract, rep):
 
 
 DRIVERS = ("aes_ecb_encrypt", "aes_ecb_decrypt", "aes_cbc_encrypt", "aes_cbc_decrypt")
-PYPDF_FALLBACK, PYPDF_PROVIDERS, PYPDF_ENCRYPTION = "pypdf._crypt_providers._fallback", "pypdf._crypt_providers", "pypdf._encryption"
-METHOD_ROLES = {"__init__": "_cryptaes_init", "encrypt": "_cryptaes_encrypt", "decrypt": "_cryptaes_decrypt"}
 
 
 def install_site(repo, tier):
     """The installation site `patch_pypdf_fallback_aes`: what pypdf calls after the patch IS the code under contract.
-    Obligations (dataflow on the real AST; the body must be the straight-line shape guard / imports / defs / stores / return True,
-    anything else is an unrecognised shape = UNDECIDED, decided by the native replayer through pypdf's own bindings):
-      * every store `<pypdf module>.aes_xxx = V`: V is the module-level function aes_xxx of this module (same name, not shadowed);
-      * every store `<fallback>.CryptAES.<m> = V`: V is the nested function that is verified under the contract of role <m>;
-      * `<module>.CryptAES = V`: V is `<fallback>.CryptAES` (the patched class);
-      * completeness: all 4 drivers + the 3 methods on the fallback module, all 4 drivers + CryptAES on the two modules that
-        imported the names earlier -- on every path that returns True."""
-    import ast
-    from pyvc.flow import dotted, ground_obligation
-    m = loader.module(AES, repo)
-    f = m.functions.get("patch_pypdf_fallback_aes")
+    The REAL function is executed symbolically on an abstract model of the three pypdf modules (c20_modes.InstallExecutor:
+    helpers inlined, loops over constant tuples unrolled, setattr / attribute stores alike); the obligations are read off
+    the final heap of every outcome:
+      * it declines (returns anything but True) only when pypdf does not run on its fallback provider;
+      * when it returns True, each of the four aes_* names of the fallback module, the provider package and pypdf._encryption
+        is bound to the module-level function of THIS module with that name (the one verified under that name's contract), and
+        CryptAES of the three modules is the one class whose __init__ / encrypt / decrypt are bound to functions of this module
+        (those functions are the targets of the CryptAES.* contracts, by construction);
+      * nothing pypdf uses is left on pypdf's DependencyError stub.
+    If the model cannot execute the function, the obligations are `unknown` and the native replayer (pypdf's own bindings after
+    the real patch) decides."""
+    from contracts import c20_modes as M
+    from pyvc.flow import ground_obligation
+    from pyvc import solve
     pre = "C20/_pypdf_aes_fallback.py::patch_pypdf_fallback_aes/install"
-    if f is None:
-        return {"obligations": [], "undecided": [{"obligation": pre, "why": "contract-target-missing"}]}
+    labels = ("installs-whenever-pypdf-runs-on-its-fallback-provider", "every-store-binds-the-function-verified-for-that-name",
+              "all-names-pypdf-uses-are-rebound")
+    r = M.run_install_site(repo)
+    if "error" in r:
+        return {"obligations": [ground_obligation(f"{pre}#{lb}", False, "installation code not executable by the model: " + r["error"][:300], AES,
+                                                  kind="call-site", definite=False) for lb in labels]}
     obls = []
     G = lambda label, ok, why="", definite=True: obls.append(ground_obligation(f"{pre}#{label}", ok, "" if ok else why, AES, kind="call-site", definite=definite))
-    alias, stores, shape_ok, why_shape = {}, [], True, ""
-    nested = {}
-    local_names = set()
-    body = list(f.body)
-    if body and isinstance(body[0], ast.Expr) and isinstance(body[0].value, ast.Constant) and isinstance(body[0].value.value, str):
-        body = body[1:]
-    returned_true = False
-    guards = []
-    for st_ in body:
-        if returned_true:
-            shape_ok, why_shape = False, f"line {st_.lineno}: code after `return True`"
-        if isinstance(st_, ast.Import):
-            for a in st_.names:
-                if a.asname:
-                    alias[a.asname] = a.name
-                else:
-                    shape_ok, why_shape = False, f"line {st_.lineno}: import without alias"
-        elif isinstance(st_, ast.FunctionDef):
-            nested[st_.name] = st_
-        elif isinstance(st_, ast.If) and not st_.orelse and len(st_.body) == 1 and isinstance(st_.body[0], ast.Return) \
-                and isinstance(st_.body[0].value, ast.Constant) and st_.body[0].value.value is False \
-                and not any(isinstance(n, (ast.Call, ast.NamedExpr)) for n in ast.walk(st_.test)):
-            guards.append(st_.test)               # guard: not applicable -> returns False before any store
-        elif isinstance(st_, ast.Assign) and len(st_.targets) == 1 and isinstance(st_.targets[0], ast.Attribute):
-            stores.append((dotted(st_.targets[0]), st_.value, st_.lineno))
-        elif isinstance(st_, ast.Return) and isinstance(st_.value, ast.Constant) and st_.value.value is True:
-            returned_true = True
-        else:
-            shape_ok, why_shape = False, f"line {st_.lineno}: {type(st_).__name__} statement not of the installation shape"
-            for n in ast.walk(st_):
-                if isinstance(n, ast.Name) and isinstance(n.ctx, ast.Store):
-                    local_names.add(n.id)
-    G("body-has-the-straight-line-installation-shape", shape_ok and returned_true, why_shape or "no `return True`", definite=False)
-    mod_of = lambda name: alias.get(name, "")
-
-    def is_fallback_test(t):
-        """<providers>.crypt_provider[0] != "local_crypt_fallback"  (the only reason not to install)"""
-        return (isinstance(t, ast.Compare) and len(t.ops) == 1 and isinstance(t.ops[0], ast.NotEq)
-                and isinstance(t.comparators[0], ast.Constant) and t.comparators[0].value == "local_crypt_fallback"
-                and isinstance(t.left, ast.Subscript) and isinstance(t.left.slice, ast.Constant) and t.left.slice.value == 0
-                and isinstance(t.left.value, ast.Attribute) and t.left.value.attr == "crypt_provider"
-                and isinstance(t.left.value.value, ast.Name) and mod_of(t.left.value.value.id) == PYPDF_PROVIDERS)
-    G("installs-whenever-pypdf-runs-on-its-fallback-provider", len(guards) <= 1 and all(is_fallback_test(t) for t in guards),
-      "guards: " + "; ".join(ast.unparse(t) for t in guards), definite=False)
-    final = {}
-    bad = []
-    for (tgt, val, line) in stores:
-        parts = tgt.split(".")
-        modname = mod_of(parts[0]) if parts and parts[0] else ""
-        key = None
-        if len(parts) == 2 and parts[1] in DRIVERS and modname in (PYPDF_FALLBACK, PYPDF_PROVIDERS, PYPDF_ENCRYPTION):
-            ok = isinstance(val, ast.Name) and val.id == parts[1] and val.id in m.functions and val.id not in nested and val.id not in local_names
-            key = (modname, parts[1])
-        elif len(parts) == 3 and parts[1] == "CryptAES" and parts[2] in METHOD_ROLES and modname == PYPDF_FALLBACK:
-            ok = isinstance(val, ast.Name) and val.id == METHOD_ROLES[parts[2]] and val.id in nested and val.id not in local_names
-            key = (modname, "CryptAES." + parts[2])
-        elif len(parts) == 2 and parts[1] == "CryptAES" and modname in (PYPDF_PROVIDERS, PYPDF_ENCRYPTION):
-            src = dotted(val).split(".")
-            ok = len(src) == 2 and mod_of(src[0]) == PYPDF_FALLBACK and src[1] == "CryptAES"
-            key = (modname, "CryptAES")
-        else:
-            ok = False
-        if not ok:
-            bad.append(f"line {line}: {tgt} = {ast.unparse(val)}")
-        if key is not None:
-            final[key] = ok
-    G("every-store-binds-the-function-verified-for-that-name", not bad, "; ".join(bad[:4]))
-    want = [(PYPDF_FALLBACK, d) for d in DRIVERS] + [(PYPDF_FALLBACK, "CryptAES." + k) for k in METHOD_ROLES]
-    for mod_ in (PYPDF_PROVIDERS, PYPDF_ENCRYPTION):
-        want += [(mod_, d) for d in DRIVERS] + [(mod_, "CryptAES")]
-    missing = [f"{a}.{b}" for (a, b) in want if (a, b) not in final]
-    G("all-names-pypdf-uses-are-rebound", not missing, "not rebound: " + ", ".join(missing[:6]))
+    fallback = z3.String("crypt_provider!name") == z3.StringVal("local_crypt_fallback")
+    is_true = lambda v: isinstance(v, VBool) and z3.is_true(z3.simplify(v.t))
+    declines, unsure = [], []
+    for (st, val) in r["outcomes"]:
+        if not is_true(val):
+            res = solve.check_vc(st.pc, z3.Not(fallback), 5000, want_model=False)
+            if res.status == "refuted":
+                declines.append(f"returns {val!r} on the fallback provider")
+            elif res.status != "proved":
+                unsure.append("undecided path condition")
+    for (st, exc) in r["raised"]:
+        unsure.append(f"may raise {getattr(exc, 'cls', exc)!r}")
+    G(labels[0], not declines and not unsure, "; ".join(declines + unsure), definite=bool(declines))
+    wrong, stubs, vague = [], [], []
+    applied = [(st, val) for (st, val) in r["outcomes"] if is_true(val)]
+    if not applied:
+        vague.append("no path returns True")
+    for (st, _val) in applied:
+        mods = st.ghost.get("pypdf-modules", {})
+        cls_ref = st.ghost.get("pypdf-CryptAES")
+        for mname in M.PYPDF_MODULES:
+            data = st.obj(mods[mname]).data if mname in mods else None
+            for d in DRIVERS:
+                v = data.get(d) if data is not None else None
+                if data is None or (isinstance(v, VFunc) and v.how == "ext" and str(v.a).startswith("pypdf-stub")):
+                    stubs.append(f"{mname}.{d}")
+                elif not (isinstance(v, VFunc) and v.how == "repo" and v.a == AES and v.b == roles_of(repo)[d][0]):
+                    (wrong if isinstance(v, VFunc) and v.how in ("repo", "closure") else vague).append(f"{mname}.{d} = {v!r}"[:120])
+            v = data.get("CryptAES") if data is not None else None
+            if data is not None and not (isinstance(v, VRef) and v.ref == cls_ref):
+                vague.append(f"{mname}.CryptAES = {v!r}"[:120])
+        cdata = st.obj(cls_ref).data if cls_ref is not None else {}
+        for role in ("__init__", "encrypt", "decrypt"):
+            v = cdata.get(role)
+            if v is None:
+                stubs.append(f"CryptAES.{role}")
+            elif M.func_qualname(r, v) is None:
+                vague.append(f"CryptAES.{role} = {v!r}"[:120])
+    bound = M.installed_methods(repo)
+    if applied and len(bound) != 3 and not stubs:
+        vague.append("the methods bound to CryptAES differ between paths")
+    G(labels[1], not wrong and not vague, "; ".join(wrong + vague)[:400], definite=bool(wrong))
+    G(labels[2], not stubs and bool(applied), ("still pypdf's DependencyError stub: " + ", ".join(sorted(set(stubs))[:6])) if stubs else "no path returns True",
+      definite=bool(stubs))
+    m = loader.module(AES, repo)
     return {"obligations": obls, "functions": [dict(m.fn_info("patch_pypdf_fallback_aes"), obligations=len(obls))]}
 
 
@@ -1017,7 +1443,7 @@ def chunks_iteration(repo, tier):
     DATA = M.p_symbytes(desc="data: bytes of any block-aligned length")
 
     def inv(lc):
-        n, a = M.arr_of(lc.entry.lookup("data"))
+        n, a = M.arr_of(param(lc, "data"))
         if lc.extra.get("phase") == "init":
             return lc.seq.length == n / 16             # the loop runs len/16 times
         if lc.extra.get("phase") != "preserve":
@@ -1032,17 +1458,47 @@ def chunks_iteration(repo, tier):
         k = lc.i - 1                                   # the iteration just finished
         return z3.And(yn == 16, z3.And([z3.Select(ya, t) == z3.Select(a, 16 * k + t) for t in range(16)]))
 
-    c = FnContract(target=f"{AES}::_chunks", generator=True, params=[("data", DATA), ("size", p_const(16))],
-                   requires=lambda c: c.args["data"].length % 16 == 0, raises=[],
-                   loops={0: LoopSpec(inv=inv, label="chunk-k-is-bytes-16k..16k+15")})
+    import ast as _ast
+    fnode = loader.module(AES, repo).functions["_chunks"]
+    is_gen = any(isinstance(x, (_ast.Yield, _ast.YieldFrom)) for x in _ast.walk(fnode))
+
+    def seq_post(c):
+        """the function RETURNS the sequence (generator expression / list): len/16 elements, element k = bytes 16k..16k+15"""
+        n, a = M.arr_of(c.args["data"])
+        r = c.result
+        if not isinstance(r, VSeq):
+            items = c.ex.concrete_items(c.st, r)
+            raise ops.Unsupported("result of _chunks is not a sequence of symbolic length" if items is None else "concrete result for a symbolic buffer")
+        k = z3.Int(fresh_name("k!chunk"))
+        e = r.elem(k)
+        if isinstance(e, VBytes):
+            en, sel = z3.IntVal(len(e.items)), [M.byte_t(x) for x in e.items]
+        else:
+            en, ea = M.arr_of(e)
+            sel = [z3.Select(ea, t) for t in range(16)]
+        return z3.And(r.length == n / 16,
+                      z3.ForAll([k], z3.Implies(z3.And(k >= 0, k < n / 16), z3.And([en == 16] + [sel[t] == z3.Select(a, 16 * k + t) for t in range(min(16, len(sel)))]))))
+
+    if is_gen:
+        c = FnContract(target=f"{AES}::_chunks", generator=True, params=sig_params("_chunks", {"data": DATA, "size": p_const(16)}),
+                       requires=lambda c: c.args["data"].length % 16 == 0, raises=[],
+                       loops={0: LoopSpec(inv=inv, label="chunk-k-is-bytes-16k..16k+15")})
+    else:
+        c = FnContract(target=f"{AES}::_chunks", params=sig_params("_chunks", {"data": DATA, "size": p_const(16)}),
+                       requires=lambda c: c.args["data"].length % 16 == 0, raises=[],
+                       ensures=[("chunk-k-is-bytes-16k..16k+15", seq_post)])
+    c = bind_by_position(c)
+    if "_chunks" not in loader.module(AES, repo).functions:
+        return {"obligations": []}          # the drivers slice the buffer themselves
     rep = verify.run_contract("C20", c, reg, Universe(repo), repo=repo, executor_cls=M.C20Executor)
     pre = "C20/_pypdf_aes_fallback.py::_chunks"
     if rep.error or rep.out_of_subset:
         return {"obligations": [{"id": f"{pre}/out-of-subset", "kind": "out-of-subset", "status": "unknown", "vcs": 0, "seconds": 0.0, "backends": {},
-                                 "witness": None, "reason": "OUT-OF-SUBSET " + str(rep.error or rep.out_of_subset), "function": f"{AES}::_chunks", "loc": ""}]}
-    keep = [o for o in rep.obligations if "inv-" in o["id"] or o["id"].endswith("/raises")]
+                                 "witness": None, "reason": "OUT-OF-SUBSET " + str(rep.error or rep.out_of_subset), "function": f"{AES}::_chunks", "loc": "", "volatile": True}]}
+    keep = [o for o in rep.obligations if "inv-" in o["id"] or "/ensures#" in o["id"] or o["id"].endswith("/raises")]
     for o in keep:
         o["function"] = f"{AES}::_chunks"
+        o["volatile"] = True
     m = loader.module(AES, repo)
     return {"obligations": keep, "functions": [dict(m.fn_info("_chunks"), obligations=len(keep))]}
 
@@ -1067,7 +1523,7 @@ def cache_policy(repo, tier):
                 q = owner.get(id(n), "<module>")
                 if rel == AES and q == "<module>" and isinstance(n, ast.Name) and isinstance(n.ctx, ast.Store):
                     continue        # the module-level definition
-                if rel == AES and q == "_get_round_keys":
+                if rel == AES and q == roles_of(repo)["_get_round_keys"][0]:
                     continue
                 uses.append(f"{rel.split('/')[-1]}:{n.lineno} in {q}")
     ob = ground_obligation("C20/_pypdf_aes_fallback.py::_ROUND_KEY_CACHE/policy#only-_get_round_keys-touches-the-cache", not uses,
@@ -1075,7 +1531,22 @@ def cache_policy(repo, tier):
     return {"obligations": [ob]}
 
 
-EXTRA = [table_checks, install_site, cache_policy, chunks_iteration]
+def _guarded(fn, subject):
+    """an exception inside an EXTRA analysis on changed input is a shape this pack does not understand: `unknown` (native replay)"""
+    def run(repo, tier):
+        try:
+            return fn(repo, tier)
+        except Exception as e:  # noqa
+            return {"obligations": [{"id": f"C20/_pypdf_aes_fallback.py::{subject}/out-of-subset", "kind": "out-of-subset", "status": "unknown", "vcs": 0,
+                                     "seconds": 0.0, "backends": {}, "witness": None, "volatile": True, "function": f"{AES}::{subject}", "loc": "",
+                                     "reason": f"OUT-OF-SUBSET analysis not applicable to this shape: {type(e).__name__}: {e}"[:300]}]}
+    run.__name__ = fn.__name__
+    return run
+
+
+EXTRA = [_guarded(table_checks, "tables"), _guarded(install_site, "patch_pypdf_fallback_aes"), _guarded(cache_policy, "_ROUND_KEY_CACHE"),
+         _guarded(chunks_iteration, "_chunks")]
+LOCK_OPTIONAL_KINDS = ("slice-store-in-range", "call-pre")       # exist only while the code has that store / call form
 REPLAY_UNKNOWN = True
 from contracts.c20_modes import C20Executor as EXECUTOR  # noqa: E402
 TRUSTED = ["FIPS-197 spec transcription in contracts/C20.py (guarded by known-answer vectors each run)"]
